@@ -192,8 +192,10 @@ func genC08(rng *Rng, workdir string) *engSession {
 // genC08Burst: a kept promise is still pending (balance negative because the Daily Total was cut after
 // the predictions were made) while the traveller books ten or more further trips, pushing the kept
 // promise's entry out of the ten-slot book; the next check-in falls after its clearance date.
+var burstProj = "C08"
+
 func genC08Burst(rng *Rng, workdir string) *engSession {
-	s := newEngSession(workdir, "C08")
+	s := newEngSession(workdir, burstProj)
 	var p flap.FlapParams
 	p.TripLength = flap.Days(rng.Range(6, 12))
 	p.FlightsInTrip = uint64(rng.Range(5, 9))
